@@ -597,17 +597,37 @@ def c15f(chk):
         chk.ob("C15.f", "parse_bool", tab == {"True": True, "False": False}, pb.loc(), "Python literals True/False map to true/false (found %s)" % tab)
     hd = chk.fn("<sfs_core::array::npy::header::HeaderDict as core::str::traits::FromStr>::from_str")
     if hd is not None:
-        # Ok only when all three entries were seen
-        oks = [(b, rv) for b, i, p, rv, s in hd.assigns() if rv["k"] == "aggregate" and rv.get("variant") == "Ok" and p[0] == 0]
+        # the dict is built (HeaderDict::new / Ok(..)) only when all three entries were seen: three distinct Option values are Some on
+        # every path to the construction (tested directly, or through `?`)
+        news = [b for b, t in hd.calls() if callee_is(t["callee"], H + "HeaderDict::new")]
+        oks = [b for b, i, p, rv, s in hd.assigns() if rv["k"] == "aggregate" and rv.get("variant") == "Ok" and p[0] == 0]
+        anchors = news or oks
         ok = False
-        if len(oks) == 1:
-            need = 0
+        seen_opts = set()
+        if len(anchors) == 1:
             for sb, st in hd.switches():
-                s = an.switch_subject(hd, sb)
-                if s["kind"] == "discr" and "Option" in (s.get("ty") or "") and an.dominated_by_edge(hd, sb, an.edge_target(st, 1), oks[0][0]):
-                    need += 1
-            ok = need >= 3
-        chk.ob("C15.f", "HeaderDict::from_str/requires-descr-fortran_order-shape", ok, hd.loc(), "a dict lacking any of the three keys is rejected")
+                s_ = an.switch_subject(hd, sb)
+                if s_["kind"] != "discr" or s_["place"] is None:
+                    continue
+                ty = s_.get("ty") or ""
+                src = None
+                if "core::option::Option" in ty and an.dominated_by_edge(hd, sb, an.variant_target(hd, sb, "Some"), anchors[0]):
+                    src = hd.canon(s_["place"])
+                elif "ControlFlow" in ty and an.dominated_by_edge(hd, sb, an.variant_target(hd, sb, "Continue"), anchors[0]):
+                    d_ = hd.single_def(hd.copy_root(s_["place"][0]))
+                    if d_ and d_[0] == "call" and callee_is(d_[2]["callee"], "core::ops::try_trait::Try::branch") and "core::option::Option" in " ".join(d_[2]["callee"].get("args", []) + [d_[2]["callee"].get("self_ty") or ""]):
+                        pl_ = op_place(d_[2]["args"][0])
+                        if pl_ is not None:
+                            l_ = pl_[0]
+                            dd_ = hd.single_def(l_)
+                            if dd_ and dd_[0] == "assign" and dd_[3]["k"] == "use" and op_place(dd_[3]["op"]) is not None:
+                                src = hd.canon(op_place(dd_[3]["op"]))
+                            else:
+                                src = (l_, ())
+                if src is not None:
+                    seen_opts.add((src[0], tuple(e[:2] for e in src[1] if e[0] == "field")))
+            ok = len(seen_opts) >= 3
+        chk.ob("C15.f", "HeaderDict::from_str/requires-descr-fortran_order-shape", ok, hd.loc(), "a dict lacking any of the three keys is rejected (distinct Option values required to be Some before the dict is built: %d)" % len(seen_opts))
 
 
 # ====================================================================================
@@ -629,6 +649,8 @@ def check_C07(chk):
     c07e(chk)
     c07f(chk)
     c07g(chk)
+    import rules_num
+    rules_num.scs_from_array_is_a_wrapper(chk, "C07.e")
     for r, n in (("C07.a", 3), ("C07.b", 5), ("C07.c", 5), ("C07.d", 4), ("C07.e", 5), ("C07.f", 6), ("C07.g", 2)):
         chk.floor(r, n)
 
@@ -1260,22 +1282,27 @@ def c16e(chk):
         its = IT.iterations(prog, ws)
         unit = [ws] + prog.closures_of(ws.path)
         calc = [(g, b, t) for g in unit for b, t in an.calls(g, "sfs::stat::Statistic::calculate")]
-        wd_all = an.calls(ws, "sfs::stat::runner::Runner::<W>::write_with_delimiter")
-        # the row write is the one whose items derive from the computed statistics (a header line written before them is not a row)
-        def fed_by_calculate(t_):
-            sl_, info_ = ws.slice_locals(t_["args"][1]) if len(t_["args"]) > 1 else (set(), {"calls": []})
-            names_ = [callee_name(x[1]["callee"]) for x in info_["calls"]]
-            if any(n_.endswith("Statistic::calculate") for n_ in names_):
-                return True
-            for x in info_["calls"]:
-                for a_ in x[1]["args"]:
-                    cp_ = an.closure_of_operand(ws, a_)
-                    g_ = prog.fn(cp_) if cp_ else None
-                    if g_ is not None and an.calls(g_, "sfs::stat::Statistic::calculate"):
-                        return True
+        # the row write(s): every write in the function (the helper, or raw write!/writeln! when the helper was inlined) whose data derive
+        # from the computed statistics; a header line written before them is not a row
+        def fed_by_calculate(t_, through_mutation=False):
+            for a_ in t_["args"][1:]:
+                sl_, info_ = ws.slice_locals(a_, mut_calls=through_mutation)
+                names_ = [callee_name(x[1]["callee"]) for x in info_["calls"]]
+                if any(n_.endswith("Statistic::calculate") for n_ in names_):
+                    return True
+                for x in info_["calls"]:
+                    for a2_ in x[1]["args"]:
+                        cp_ = an.closure_of_operand(ws, a2_)
+                        g_ = prog.fn(cp_) if cp_ else None
+                        if g_ is not None and an.calls(g_, "sfs::stat::Statistic::calculate"):
+                            return True
             return False
-        wd = [x for x in wd_all if fed_by_calculate(x[1])] if len(wd_all) > 1 else wd_all
-        other_writes = [(g.path, callee_name(t["callee"])) for g in unit for b, t in g.calls() if callee_name(t["callee"]).startswith(("std::io::Write::", "std::io::stdio::"))]
+        writes_all = [(b_, t_) for b_, t_ in ws.calls() if callee_is(t_["callee"], "sfs::stat::runner::Runner::<W>::write_with_delimiter") or callee_name(t_["callee"]).startswith("std::io::Write::")]
+        wd = [x for x in writes_all if fed_by_calculate(x[1])]
+        if not wd:
+            # the values reach the write through a vector filled with push(..): follow mutation through `&mut v` as well
+            wd = [x for x in writes_all if fed_by_calculate(x[1], through_mutation=True)]
+        other_writes = [(g.path, callee_name(t["callee"])) for g in unit if g is not ws for b, t in g.calls() if callee_name(t["callee"]).startswith(("std::io::Write::", "std::io::stdio::"))]
         ok = False
         why = "expected one calculate call, one write_with_delimiter call and no other write"
 
@@ -1292,9 +1319,10 @@ def c16e(chk):
                     return None
                 cb = nxt[0]
             return None
-        if len(calc) == 1 and len(wd) == 1 and not other_writes:
+        if len(calc) == 1 and len(wd) >= 1 and not other_writes:
             g, cb, ct = calc[0]
-            wb = wd[0][0]
+            wbs = [x[0] for x in wd]
+            wb = wbs[0]
             chk.fns_analysed.add(g.path)
             inside = [it for it in its if it.body is g and cb in it.blocks]
             it = min(inside, key=lambda x: len(x.blocks)) if inside else None
@@ -1319,7 +1347,7 @@ def c16e(chk):
                     ch = IT.receiver_chain(ws, coll[0][1]["args"][0])
                     through = IT.chain_get(ch, "map") is it.term and IT.chain_names(ch) == ["map", "iter"]
                     oc2 = an.option_outcomes(ws, coll[0][0])
-                    col_ok = through and oc2 is not None and an.dominated_by_edge(ws, oc2[0], oc2[1], wb) and \
+                    col_ok = through and oc2 is not None and all(an.dominated_by_edge(ws, oc2[0], oc2[1], w_) for w_ in wbs) and \
                         "core::result::Result<alloc::vec::Vec<" in " ".join(coll[0][1]["callee"].get("args", []))
                 ok = col_ok
                 why = "%s: the closure returns calculate(..) through Result::map / map_err (an Err stays an Err), collected as Result<Vec<_>, _> whose success edge dominates the write=%s" % (it.describe(), col_ok)
@@ -1329,9 +1357,9 @@ def c16e(chk):
                 sb, good, bad = oc
                 # a failing statistic leaves without reaching the write; the write follows the exhausted loop
                 after_bad = ws.reachable_from(bad)
-                ok = wb not in after_bad and wb not in it.loop_blocks and an.dominated_by_edge(ws, it.switch_bb, it.none_t, wb) and \
+                ok = all(w_ not in after_bad and w_ not in it.loop_blocks and an.dominated_by_edge(ws, it.switch_bb, it.none_t, w_) for w_ in wbs) and \
                     sorted(IT.chain_names(it.chain())) == ["iter"]
-                why = "%s: failure leaves without writing=%s, write only after the last statistic=%s" % (it.describe(), wb not in after_bad, an.dominated_by_edge(ws, it.switch_bb, it.none_t, wb))
+                why = "%s: failure leaves without writing=%s, write only after the last statistic=%s" % (it.describe(), all(w_ not in after_bad for w_ in wbs), all(an.dominated_by_edge(ws, it.switch_bb, it.none_t, w_) for w_ in wbs))
             else:
                 # closure returning Result, collected into Result<Vec<_>, _> whose success edge dominates the write
                 sb, good, bad = oc
@@ -1344,7 +1372,7 @@ def c16e(chk):
                     ch = IT.receiver_chain(ws, coll[0][1]["args"][0])
                     through = IT.chain_get(ch, "map") is it.term and IT.chain_names(ch) == ["map", "iter"]
                     oc2 = an.option_outcomes(ws, coll[0][0])
-                    col_ok = through and oc2 is not None and an.dominated_by_edge(ws, oc2[0], oc2[1], wb) and \
+                    col_ok = through and oc2 is not None and all(an.dominated_by_edge(ws, oc2[0], oc2[1], w_) for w_ in wbs) and \
                         "core::result::Result<alloc::vec::Vec<" in " ".join(coll[0][1]["callee"].get("args", []))
                 ok = err_kept and col_ok
                 why = "%s: a failing statistic yields Err=%s, collected as Result<Vec<_>, _> whose success edge dominates the write=%s" % (it.describe(), err_kept, col_ok)
@@ -1382,8 +1410,89 @@ def check_C18(chk):
             o["id"] = "C18.d/" + o["key"]
     chk.rule_counts["C18.d"] = chk.rule_counts.pop("C07.e", 0)
     c18e(chk)
-    for r, n in (("C18.a", 7), ("C18.b", 100), ("C18.c", 3), ("C18.d", 5), ("C18.e", 1)):
+    reader_outcomes(chk, "C18.e")
+    for r, n in (("C18.a", 7), ("C18.b", 100), ("C18.c", 3), ("C18.d", 5), ("C18.e", 5)):
         chk.floor(r, n)
+
+
+def reader_outcomes(chk, rule):
+    """a failure of the record reader is an error at every offset: in the two genotype readers `ReadStatus::Done` is constructed only for
+    the zero-length successful read, `ReadStatus::Read` only under success of every fallible step, and nothing but `ReadStatus::Error`
+    under any failure edge (an `Err(e) if e.kind() == UnexpectedEof => Done` arm turns a truncated stream into a clean end)"""
+    READSTATUS = "sfs_core::input::ReadStatus"
+    for kind, reader_call in (("vcf", "read_record"), ("bcf", "read_lazy_record")):
+        f = chk.fn("sfs_core::input::genotype::reader::%s::Reader::<R>::read_genotypes" % kind)
+        if f is None:
+            continue
+        rc = [(b, t) for b, t in f.calls() if callee_name(t["callee"]).split("::")[-1] == reader_call]
+        if len(rc) != 1:
+            chk.fail(rule, "%s::read_genotypes/reader-call" % kind, f.loc(), "expected one %s call" % reader_call)
+            continue
+        rb = rc[0][0]
+        ok_edges, err_edges = [], []
+        for sb, st in f.switches():
+            s_ = an.switch_subject(f, sb)
+            if s_["kind"] == "discr" and s_["variants"] and set(s_["variants"].values()) == {"Ok", "Err"}:
+                ok_edges.append((sb, an.variant_target(f, sb, "Ok")))
+                err_edges.append((sb, an.variant_target(f, sb, "Err")))
+        first = [(sb, t_) for sb, t_ in ok_edges if any(x[0] == sb for x in an.switches_on_call_result(f, rb))]
+        bad = []
+        n_done = 0
+        for b, i, p_, rv, x_ in f.assigns():
+            if not (rv["k"] == "aggregate" and rv.get("adt") == READSTATUS):
+                continue
+            under_err = [f.loc(sb) for sb, t_ in err_edges if t_ is not None and an.dominated_by_edge(f, sb, t_, b)]
+            v = rv["variant"]
+            if v in ("Done", "Read") and under_err:
+                bad.append("%s constructed under the failure edge at %s" % (v, under_err))
+            if v == "Done":
+                n_done += 1
+                under_first_ok = any(an.dominated_by_edge(f, sb, t_, b) for sb, t_ in first)
+                # .. and under `n == 0`: a switch on the Ok payload (or a comparison of it with 0) whose zero edge dominates
+                zero = False
+                for sb, st in f.switches():
+                    pl = op_place(st["discr"])
+                    isz = pl is not None and any(e[0] == "downcast" and e[1] == "Ok" for e in pl[1])
+                    if not isz:
+                        s_ = an.switch_subject(f, sb)
+                        d_ = f.single_def(s_["root"]) if s_["root"] is not None else None
+                        if d_ and d_[0] == "assign" and d_[3]["k"] == "binop" and d_[3]["op"] in ("Eq", "Ne") and 0 in (const_val(d_[3]["l"]), const_val(d_[3]["r"])):
+                            t0 = st["otherwise"] if d_[3]["op"] == "Eq" else an.edge_target(st, 0)
+                            zero = zero or an.dominated_by_edge(f, sb, t0, b)
+                        continue
+                    zero = zero or an.dominated_by_edge(f, sb, an.edge_target(st, 0), b)
+                if not (under_first_ok and zero):
+                    bad.append("Done not under `Ok(0)` of the record read (success edge=%s, zero length=%s)" % (under_first_ok, zero))
+        chk.ob(rule, "%s::read_genotypes/Done-only-on-Ok(0),nothing-but-Error-on-failure" % kind, not bad and n_done == 1 and bool(err_edges), f.loc(),
+               "end of input is the zero-length successful read and nothing else; every failure becomes ReadStatus::Error (%s)" % (bad or "ok"))
+    # the site reader forwards the genotype reader's status: Done stays Done, Error stays Error
+    rsite = chk.fn("sfs_core::input::site::reader::Reader::read_site")
+    if rsite is not None:
+        rg = [(b, t) for b, t in rsite.calls() if callee_name(t["callee"]).split("::")[-1] == "read_genotypes"]
+        ok = False
+        why = "switch on the status returned by read_genotypes not recognised"
+        if len(rg) == 1:
+            for sb, s_ in an.switches_on_call_result(rsite, rg[0][0]):
+                if s_["kind"] != "discr" or s_.get("adt") != READSTATUS:
+                    continue
+                td, te, tr = (an.variant_target(rsite, sb, v) for v in ("Done", "Error", "Read"))
+                distinct = len({td, te, tr}) == 3
+                dones = [b for b, i, p_, rv, x_ in rsite.assigns() if rv["k"] == "aggregate" and rv.get("adt") == READSTATUS and rv["variant"] == "Done"]
+                errs = [b for b, i, p_, rv, x_ in rsite.assigns() if rv["k"] == "aggregate" and rv.get("adt") == READSTATUS and rv["variant"] == "Error"]
+                done_ok = bool(dones) and all(an.dominated_by_edge(rsite, sb, td, b) for b in dones)
+                err_ok = any(an.dominated_by_edge(rsite, sb, te, b) for b in errs)
+                # under the Error edge nothing but an Error is returned
+                bad = [rv["variant"] for b, i, p_, rv, x_ in rsite.assigns() if rv["k"] == "aggregate" and rv.get("adt") == READSTATUS and rv["variant"] != "Error" and te is not None and an.dominated_by_edge(rsite, sb, te, b)]
+                ok = distinct and done_ok and err_ok and not bad
+                why = "three distinct arms=%s, Done only under Done=%s, Error under Error=%s, other statuses under the Error edge: %s" % (distinct, done_ok, err_ok, bad)
+        chk.ob(rule, "site::read_site/forwards-Done-and-Error", ok, rsite.loc(), "the genotype reader's end of input and failure are handed on as they are (%s)" % why)
+    # the trait impls only map the success payload
+    for kind in ("vcf", "bcf"):
+        g = chk.fn("<sfs_core::input::genotype::reader::%s::Reader<R> as sfs_core::input::genotype::reader::Reader>::read_genotypes" % kind)
+        if g is not None:
+            names = [callee_name(t["callee"]).split("::")[-1] for b, t in g.calls()]
+            chk.ob(rule, "%s::Reader::read_genotypes=inherent.map(..)" % kind, names == ["read_genotypes", "map"] and not list(g.switches()), g.loc(),
+                   "the trait method forwards the inherent reader's status and converts only the Read payload (calls %s)" % names)
 
 
 def c18a(chk):
